@@ -135,18 +135,7 @@ def cursor(ctx: Ctx, rep: Report) -> None:
             key='init',
         )
     # params: defining order
-    f = ctx.fn(f'{CIRC}:Circuit.params')
-    rep.seen(f.qualname)
-    t = norm(f.node)
-    rep.count()
-    rep.check(
-        'for op in self' in t and 'op.params' in t and 'reversed' not in t,
-        C, 'Circuit.params', f.path, f.lineno,
-        'flat parameter vector = concatenation in default order',
-        'Circuit.params no longer concatenates op.params in the order of '
-        '`for op in self`', key='params',
-    )
-    n += 1
+    n += params_order(ctx, rep)
     # get_param_location: count-based cursor
     f = ctx.fn(f'{CIRC}:Circuit.get_param_location')
     g = ctx.cfg(f)
@@ -275,6 +264,39 @@ def param_index_spaces(ctx: Ctx, rep: Report) -> None:
                 'wrong parameter is read or frozen', key='spaces',
             )
     rep.floor(X, n, 3, 'get_param_location call sites in Circuit')
+
+
+def params_order(ctx: Ctx, rep: Report) -> int:
+    """`Circuit.params` is the vector every consumer indexes (set_params,
+    get_unitary(params), the native cost engine): it must be the
+    concatenation of op.params in the *default iteration order* - the same
+    walk the simulators use - not any other enumeration of the same
+    operations (the cycle grid orders a cycle by lowest qudit, iteration by
+    first location)."""
+    C = 'CURSOR'
+    f = ctx.fn(f'{CIRC}:Circuit.params')
+    rep.seen(f.qualname)
+    sources = []
+    for n in ast.walk(f.node):
+        if isinstance(n, (ast.For, ast.comprehension)):
+            sources.append(norm(n.iter))
+    reads = any(isinstance(x, ast.Attribute) and x.attr == 'params'
+                and norm(x.value) != 'self' for x in ast.walk(f.node))
+    ok = reads and bool(sources) and any(s in DEFAULT_ITERS for s in sources)
+    odd = [s for s in sources if s not in DEFAULT_ITERS and (
+        '_circuit' in s or 'reversed' in s or 'reverse=True' in s
+        or '_dag' in s or 'sorted' in s)]
+    rep.count()
+    rep.check(
+        ok and not odd, C, 'Circuit.params', f.path, f.lineno,
+        'flat parameter vector = concatenation in default iteration order',
+        'Circuit.params no longer concatenates op.params in the order of '
+        f'`for op in self` (it enumerates {sources}): set_params, '
+        'get_unitary(params) and the cost engine index the vector in '
+        'iteration order, so parameters are attributed to the wrong '
+        'operations', key='params',
+    )
+    return 1
 
 
 def qasm_def_cursor(ctx: Ctx, rep: Report) -> int:
